@@ -63,7 +63,7 @@ CHECKS = {
          "3/C05"),
  "C18": ("exploration",
          "Hypothesis-generated hostile YAML documents with side-effect canaries (import marker file, recording callables)",
-         "Documents valid except for one python/* tag (all PyYAML kinds, three spellings) or unregistered !tag at generated positions (root node, sections, pipeline, nested in lazy/eager tag arguments, mapping keys, values merged with `<<` (also nested), !!omap/!!pairs items, `=` values, logging section, behind aliases); load() must raise, the canary module must not be imported (sys.modules + marker file) and no canary callable may be called or instantiated.",
+         "Documents valid except for one python/* tag (all PyYAML kinds, three spellings) or unregistered !tag at generated positions (root node, sections, pipeline, nested in lazy/eager tag arguments, mapping keys, values merged with `<<` (also nested), !!omap/!!pairs items, `=` values, logging section, behind aliases), with or without a harmless anchored node and its alias elsewhere in the document; load() must raise, the canary module must not be imported (sys.modules + marker file) and no canary callable may be called or instantiated.",
          "Calls of real os/subprocess targets are not observed, only rejection; canaries make import/call/instantiation observable. Thorough tier adds an atheris byte-level fuzz target when atheris is installable.",
          "3/C18"),
  "C01": ("fault_enumeration",
@@ -73,7 +73,7 @@ CHECKS = {
          "3/C01"),
  "C02": ("fault_enumeration",
          "Hypothesis termination scenarios in a forked worker; invariant over the timestamped per-payload event log vs the instant the call ended",
-         "A finite core (every trigger x flavour/state/cleanup of one running coroutine payload x runner, 570 scenarios) is enumerated completely in both tiers; beyond it every termination trigger (failure per flavour and kind, raised KeyboardInterrupt, real SIGINT, shutdown()/stop() from outside or requested by a payload of any flavour) at generated instants against generated sets of running coroutine payloads (sleeping, spinning, beating, just adopted, adopted from payloads, adopted during shutdown) with synchronous and shielded cleanup and blocked threads, compound triggers (shutdown followed by a failure inside the cleanup window) and payloads adopted by the failing payload in its last step; each started coroutine payload must log its framework's cancellation and cleanup-done before T_end and nothing after it.",
+         "A finite core (every trigger x flavour/state/cleanup of one running coroutine payload x runner, 570 scenarios) is enumerated completely in both tiers; beyond it every termination trigger (failure per flavour and kind, raised KeyboardInterrupt, real SIGINT, shutdown()/stop() from outside or requested by a payload of any flavour) at generated instants against generated sets of running coroutine payloads (sleeping, spinning, beating, just adopted, adopted from payloads, adopted during shutdown; asyncio payloads that absorb their first cancellations) with synchronous and shielded cleanup and blocked threads, compound triggers (shutdown followed by a failure inside the cleanup window) and payloads adopted by the failing payload in its last step; each started coroutine payload must log its framework's cancellation and cleanup-done before T_end and nothing after it.",
          "Sampled interleavings and trigger instants (a fifth of the scenarios under line-level delays inside the runner modules); timestamps are monotonic_ns taken inside the payloads, T_end after the call returned; 20 s liveness bound.",
          "3/C02"),
  "C03": ("exploration",
